@@ -245,7 +245,7 @@ def shard_fn(shard, nshards, seed, tier, exe, nhist):
 def run(tier, seed):
     bdir = build.build("asan")
     chk = core.Check(PID, tier, seed)
-    sh = core.parallel(shard_fn, seed=seed, tier=tier, exe=bdir + "/jcdrv", nhist=8000 if tier == "quick" else 500000)
+    sh = core.parallel(shard_fn, seed=seed, tier=tier, exe=bdir + "/jcdrv", nhist=40000 if tier == "quick" else 500000)
     chk.absorb(sh)
     chk.rule = ("histories of new_string / new_string_len / set_string (strlen semantics) / set_string_len over byte strings of all 256 values with lengths from {0,1,7,8,9,15,16,17,31,32,33,127,128,129,4096,65536} "
                 "and current+-1 (crossing the inline threshold and the 'fits in the separate buffer' boundary both ways), every 5th set with its allocation failed by the shim, refused lengths "
